@@ -323,6 +323,27 @@ class C17(Check):
                     break
             if wf != ok:
                 self.compiler_bad.append({"text": t, "S_wf": wf, "gfortran_accepts": ok})
+                continue
+            # S's "not counted" versus the compiler: blanking every Fortran comment line that S does not count
+            # (also inside continued statements and continued literals) must leave a program that gfortran still
+            # accepts and whose preprocessed token set is unchanged.  (Lines that merely close a directive's
+            # block comment or hold a lone & are not counted either, but are not removable.)
+            counted = {n for n, _ in a[1][1]}
+            ls = t.split("\n")
+            blanked = "\n".join("" if (i + 1) not in counted and l.strip().startswith("!") else l for i, l in enumerate(ls))
+            if blanked != t:
+                for defs in ([], ["-DF0", "-DV0=1"], ["-DF1", "-DV1=2", "-DV0=0"]):
+                    (d / "v.F90").write_text(t)
+                    p0 = subprocess.run(["gfortran", "-cpp", "-E", "-P"] + defs + ["v.F90"], cwd=d, capture_output=True, text=True)
+                    (d / "w.F90").write_text(blanked)
+                    p1 = subprocess.run(["gfortran", "-cpp", "-fsyntax-only"] + defs + ["w.F90"], cwd=d, capture_output=True, text=True)
+                    p2 = subprocess.run(["gfortran", "-cpp", "-E", "-P"] + defs + ["w.F90"], cwd=d, capture_output=True, text=True)
+                    self.compiler_runs += 3
+                    if p1.returncode != 0 or p1.stderr.strip() or \
+                            sorted(set(G.tokens_of(p0.stdout))) != sorted(set(G.tokens_of(p2.stdout))):
+                        self.compiler_bad.append({"text": t, "blanked_uncounted_lines": blanked, "defs": defs,
+                                                  "gfortran": p1.stderr[:200]})
+                        break
         if self.compiler_bad:
             out.append(f"S and gfortran disagree on the well-formedness of {len(self.compiler_bad)} compilable programs: {self.compiler_bad[0]}")
         return out
